@@ -1019,6 +1019,8 @@ def as_cell(v, w):
             raise ValueError("bytes must be in range(0, 256)")
         return v
     assert isinstance(v, SymInt)
+    if v.lo is not None and v.hi is not None and 0 <= v.lo and v.hi < (1 << w):
+        return z3.simplify(z3.Extract(w - 1, 0, v.ext(max(v.w, w))))  # in range by interval analysis: no decision needed
     inr = SymInt.cmp("<=", 0, v)
     inr2 = SymInt.cmp("<", v, 1 << w)
     if not (truth(inr) and truth(inr2)):
